@@ -4,6 +4,21 @@ import json, os
 V = os.path.dirname(os.path.dirname(os.path.abspath(__file__)))
 
 CLAIMS = {
+  "C01": dict(
+    text="Lean 4 theorems, unbounded: chunk-body round trip for every well-formed prefix table and every legal grouping into single/run blocks (iterUnits ∘ encBlocks), run-length varint for all x<2^24 and jumpstart<=24 with the frozen terminator rule, offset MSB-last rule for every (r,k,off), prefix-code matching for every prefix-free table, integer k spec; data-type maps are C12. Tie: the real compressor's bytes for structured inputs of all 15 types/levels/orders are decoded by the Lean spec decoder and by the real decoder and compared with the input bit for bit; big implementation-only round trips (runs >= 2^23, 2^24-1 numbers).",
+    note="File-level framing theorem (decode∘encode at file level) and the refinement of the real decoder's four read modes are staged (DESIGN 11); word packing and Huffman lookup tables are modelled at bit-list level, not verified; training heuristics are observed, not predicted.",
+    technique="Lean 4 theorems (induction over blocks, omega) + enc-stream correspondence (real bytes decoded by the Lean spec decoder) + direct round-trip oracle",
+    ref="7/C01"),
+  "C02": dict(
+    text="Lean 4: constants/field widths/flag layout/dtype table extracted from /repo equal the frozen ones (decide), header round trip and size for every dtype and flag combination. Tie: every emitted byte stream is decoded by the independent Lean decoder (frozen grammar) exactly to its last byte, flags/metadata/numbers compared with what was compressed and with the returned ChunkMetadata, and the spec encoder reproduces the bytes bit for bit; the 8 shipped asset files decode to their .bin values under the frozen grammar.",
+    note="The Lean decoder is the independent decoder; it is trusted as the statement of the format (validated against assets written by 0.4-0.10). GCD field width uses hardware floats in the driver only.",
+    technique="Lean 4 spec of the format + decide against regenerated constants + enc-stream correspondence",
+    ref="7/C02"),
+  "C16": dict(
+    text="Lean 4 theorems over *all* flag sections (any number of continuation bytes, any bits): the header parser answers exactly flagsFields of the concatenated 7-bit groups; any set bit at index >= 6 gives a compatibility error; acceptance implies all such bits clear; with them clear the flags depend only on the first six bits; the writer's own byte decodes. Tie: rewritten flag sections of real files of every dtype through header(), iterator, simple_decompress and chunk API, kinds compared with the model.",
+    note="Trusted: correspondence between Flags::parse_from/TryFrom<Vec<bool>> and decFlags/flagsFields is by differential testing (every single unknown position over 1..4 continuation bytes + random).",
+    technique="Lean 4 theorems (induction over flag bytes) + dops-stream correspondence",
+    ref="7/C16"),
   "C12": dict(
     text="Lean 4 theorems for every data-type descriptor with >= 1 unsigned bit (hence all 15 generated rows): from_unsigned∘to_unsigned = id, to_unsigned∘from_unsigned = id, strict monotonicity w.r.t. the natural order (two's complement / sign-magnitude float order / false<true), signed and byte maps exact inverses, 96-bit range rejection, header bytes distinct (decide over the table regenerated from /repo), cross-type header rejected. Tie: table regenerated from source + map stream comparing the real NumberLike methods with the Lean maps on all 2^16 patterns of 16-bit types and boundary-dense patterns of the others.",
     note="Trusted: Lean kernel; regex extractor of the dtype table (checked equal to the frozen table by decide); the map correspondence is differential testing of the macro bodies (floats.rs, signeds.rs, ...) against the Lean maps.",
